@@ -102,6 +102,16 @@ def r1_order(ctx):
             f'main: {an} precedes {bn}',
             f'main: {bn} can run before {an}: a lower-priority source overrides a higher-priority one',
         )
+        if must_complete:
+            dom = all(cfg.set_dominates(a_nodes, x) for x in cfg.nodes_of(b, 'stmt'))
+            ctx.check(
+                dom,
+                'C19.R1',
+                f'{func_label(mn)}|always:{an}<{bn}',
+                loc(mn, b),
+                f'main: {an} has happened on every path that reaches {bn}',
+                f'main: {bn} can be reached on a path that skips {an} (e.g. an early exit of an option-loading branch): that source is silently ignored for some invocations and a lower-priority source wins',
+            )
     # defaults handed to the parser: the two exports, unfiltered
     mpc = next(c for c in calls_in(mp) if (dotted(c.func) or '').endswith('make_main_parser'))
     dk = kwarg(mpc, 'defaults')
@@ -366,6 +376,35 @@ def r5_exclusions(ctx):
         ctx.check(any(w <= g for g in have), 'C19.R5', f'{cl.rel}|cli-exclusive:{"/".join(sorted(w))}', cl.rel, f'CLI: {sorted(w)} are mutually exclusive', f'CLI: {sorted(w)} are no longer in one mutually exclusive group')
 
 
+def r7_parsers_agree(ctx):
+    """the bootstrap parser and the per-command parsers see the same options: they are built with the same abbreviation /
+    prefix policy (an option the second parse accepts as `--prof` but the first one ignores is taken from a lower-priority source)"""
+    corpus = ctx.corpus
+    cl = corpus.module('cli')
+    settings = {}
+    for c in ast.walk(cl.tree):
+        if isinstance(c, ast.Call) and (dotted(c.func) or '').endswith('ArgumentParser'):
+            ab = kwarg(c, 'allow_abbrev')
+            v = ab.value if isinstance(ab, ast.Constant) else ('?' if ab is not None else True)
+            settings.setdefault(v, []).append(c)
+        if isinstance(c, ast.Call) and isinstance(c.func, ast.Attribute) and c.func.attr == 'add_parser':
+            ab = kwarg(c, 'allow_abbrev')
+            if ab is not None:
+                v = ab.value if isinstance(ab, ast.Constant) else '?'
+                settings.setdefault(v, []).append(c)
+    n = sum(len(v) for v in settings.values())
+    ctx.floor('C19.R7', 'ArgumentParser constructions in utils/cli.py', n, 2)
+    odd = min(settings.values(), key=len)[0] if len(settings) > 1 else None
+    ctx.check(
+        len(settings) == 1,
+        'C19.R7',
+        f'{cl.rel}|parsers-share-abbreviation-policy',
+        f'{cl.rel}:{odd.lineno}' if odd is not None else cl.rel,
+        'all argument parsers use the same allow_abbrev policy (the bootstrap parse and the final parse recognise the same spellings)',
+        f'the parsers disagree on allow_abbrev ({sorted(map(str, settings))}): an abbreviated option is seen by one parse and not by the other - profile / config file / repository are then taken from a lower-priority source',
+    )
+
+
 def _kwonly_selected(f):
     """every effect of the per-parameter loop happens only for parameters whose kind is KEYWORD_ONLY
     (guard clause `is not ...: continue` or positive `if kind is ...:` - decided on the CFG)"""
@@ -452,3 +491,4 @@ def run(ctx):
     r4_coercers(ctx)
     r5_exclusions(ctx)
     r6_custom_backends(ctx)
+    r7_parsers_agree(ctx)
